@@ -1089,7 +1089,7 @@ func (rn *runner) restartNS(ns string, leader bool, k int, quiesceFirst bool) {
 			}
 		}
 	}
-	if rn.rx.waitLeader(ns, 30*time.Second) == nil {
+	if rn.rx.waitLeader(ns, 75*time.Second) == nil {
 		rn.setInconclusive("no leader after restart of " + ns)
 		return
 	}
@@ -1291,7 +1291,7 @@ func (rn *runner) imageAt(src *source, o int) (string, error) {
 		}
 		rn.img = img
 		rn.imgNext = 1
-		if img.waitLeader(ns, 30*time.Second) == nil {
+		if img.waitLeader(ns, 90*time.Second) == nil {
 			return "", fmt.Errorf("image server has no leader")
 		}
 	}
